@@ -180,7 +180,15 @@ class RuleGen:
                 return {"$or": self.shuffled(alts)}
             return {"$and": [good]}
         if depth < 1 and rng.random() < f.onots:
-            d = self.decoy_operand()
+            # argument: a decoy (the $not succeeds) or, sometimes, a name of this very operand (it must reject);
+            # single literal or a group of literals
+            own = self.op_name(field) if rng.random() < 0.3 else None
+            d = own if own is not None else self.decoy_operand()
+            r2 = rng.random()
+            if r2 < 0.35:
+                d = {"$or": self.shuffled([d, self.decoy_operand()] + ([self.decoy_operand()] if rng.random() < 0.4 else []))}
+            elif r2 < 0.45:
+                d = {"$and": [d]}
             return {"$not": [d]}
         return self.op_name(field)
 
@@ -350,12 +358,17 @@ class RuleGen:
                     children = self.shuffled(children)
                 node = {kind: children}
             if rng.random() < f.group_times:
-                node["times"] = self.times_value(self.block_run(idx, used))
+                node["times"] = self.times_value(self.block_run(idx, used, any_order=(kind == "$and_any_order")))
             return node, used
         if depth < f.max_depth and r < f.groups + f.nots:
             x = self.decoy_item()
-            if rng.random() < 0.3:
+            if rng.random() < 0.25:
+                x = self.item_for(idx, allow_times=False)[0]     # the argument matches here: the $not must reject
+            r3 = rng.random()
+            if r3 < 0.3:
                 x = {"$and": [x, self.decoy_item()]}
+            elif r3 < 0.45:
+                x = {"$or": self.shuffled([x, self.decoy_item()])}
             node = {"$not": [x]}
             if rng.random() < f.group_times:
                 node["times"] = self.times_value(1)
@@ -374,11 +387,15 @@ class RuleGen:
         node, used = self.item_for(idx, allow_times=(depth == 0 or rng.random() < 0.5))
         return node, used
 
-    def block_run(self, idx: int, used: int) -> int:
-        """How many times the block of `used` instructions at idx repeats consecutively."""
+    def block_run(self, idx: int, used: int, any_order: bool = False) -> int:
+        """How many times the block of `used` instructions at idx repeats consecutively
+        (as a multiset of instructions when any_order)."""
         if used <= 0:
             return 1
-        body = lambda a: [(m, o) for _, m, o in self.fields[a:a + used]]  # noqa: E731
+        if any_order:
+            body = lambda a: sorted((m, o) for _, m, o in self.fields[a:a + used])  # noqa: E731
+        else:
+            body = lambda a: [(m, o) for _, m, o in self.fields[a:a + used]]  # noqa: E731
         block = body(idx)
         r = 1
         while idx + (r + 1) * used <= len(self.fields) and body(idx + r * used) == block:
